@@ -437,7 +437,12 @@ Msgs(s, T) ==
                                 dr \in BOOLEAN, f \in MaxFees \cup {-1}})
                     \* a zero quantity or a zero bid, in single-entry lists only
                     \cup Seqs1({[id |-> i, qty |-> q, bid_denom |-> bd, bid_amt |-> p, dar |-> TRUE, maxfee |-> NoCoin]
-                                 : i \in OrderIds(s), bd \in Denoms, q \in {0, 1}, p \in Bids \cup {0}})}
+                                 : i \in OrderIds(s), bd \in Denoms, q \in {0, 1}, p \in Bids \cup {0}})
+                    \* a max fee stated in another denomination than the bid (Coin.IsLT panics: the purchase fails)
+                    \cup Seqs1({e \in {[id |-> i, qty |-> 1, bid_denom |-> bd, bid_amt |-> p, dar |-> TRUE, maxfee |-> SomeCoin(od, f)]
+                                         : i \in OrderIds(s), bd \in Denoms, p \in Bids, f \in MaxFees,
+                                           od \in Denoms \cup {"ufoo"}}
+                                  : e.maxfee.denom # e.bid_denom})}
     [] T = "AddAllowedDenom" ->
          {[type |-> T, authority |-> a, bank |-> d, display |-> d, exp |-> 6]
             : a \in Signers, d \in Denoms \cup {"ufoo"}}
